@@ -242,9 +242,29 @@ def bypass_cond(s: Summary, ev: Ev) -> tuple:
     return ((("bypass", tuple(sorted(exits))), True),) if exits else ()
 
 
+def _raise_only_guards(s: Summary, guards: tuple) -> tuple:
+    """Drop the must-guards whose other arm always raises: `if not x: raise ...` in front of a statement does not
+    make the statement conditional - when the test fails there is no result at all (the constructor / call fails),
+    not a result with something missing."""
+    def all_paths(paths):
+        for p in paths:
+            yield p
+            for e in p.events:
+                if e.body:
+                    yield from all_paths(e.body)
+
+    keep = []
+    for a, pol in guards:
+        other = [p for p in all_paths(s.paths) if any(g.kind == "guard" and g.a == a and g.b == (not pol) for g in p.events)]
+        if other and all(p.out is not None and p.out[0] == "raise" for p in other):
+            continue
+        keep.append((a, pol))
+    return tuple(keep)
+
+
 def _conds(ctx: Ctx, s: Summary | None = None, ev: Ev | None = None) -> tuple:
     if s is not None and ev is not None:
-        return s.must_guards(ev) + bypass_cond(s, ev)
+        return _raise_only_guards(s, s.must_guards(ev)) + bypass_cond(s, ev)
     out = []
     for g in ctx.guards:
         if g.kind == "guard":
@@ -689,6 +709,39 @@ def scan_none_discipline(cx: Cx, ob: Ob, fns: list[FunctionInfo]) -> None:
                         witness=f"condition `{show(cond)}`: with a registered empty prefix the lookup yields '' which is falsy",
                         detail=f"truthiness:{d}",
                     )
+        # FLOW: a str|None result put where a string is needed (a component of a ReferenceTuple, an operand of `+`,
+        # an argument of format_curie) on a path that has not tested it: None ends up inside the reference / raises
+        # TypeError far from the cause
+        def string_positions(t):
+            for sub in subterms(t):
+                pa = reftuple_args(sub) if op(sub) == "call" else None
+                if pa is not None:
+                    yield from pa
+                if op(sub) == "concat":
+                    yield from sub[1]
+                if op(sub) == "bin" and sub[1] == "+":
+                    yield sub[2]
+                    yield sub[3]
+                if op(sub) == "call" and callee_name(sub) == "format_curie":
+                    yield from sub[2]
+
+        flagged = set()
+        for t, ctx in list(s.returns()) + [(ev.b, ctx) for ev, ctx in s.walk() if ev.kind in ("bind", "store") and isinstance(ev.b, tuple)]:
+            for x in string_positions(t):
+                d = is_optional_str_lookup(cx, x, opt) if op(x) == "call" else None  # a subscript raises, it is never None
+                if d is None or (fn.qualname, d) in flagged:
+                    continue
+                tested = any(g.kind == "guard" and any(y == x for y in subterms(g.a)) for g in ctx.guards) or any(g.kind == "except" for g in ctx.guards)
+                if tested:
+                    continue
+                flagged.add((fn.qualname, d))
+                line = ctx.path.out[2] if ctx.path.out is not None and len(ctx.path.out) > 2 else fn.node.lineno
+                ob.violate(
+                    fn.qualname,
+                    where(fn, line),
+                    f"the result of {d} (str | None) is used as a string (`{show(t)[:60]}`) on a path that never tests it: when it is None the caller gets a reference holding None or a TypeError instead of the failure answer",
+                    detail=f"untested-optional:{d}",
+                )
         for t, ctx in s.returns():
             for sub in subterms(t):
                 if op(sub) in ("or", "and"):
@@ -901,6 +954,33 @@ def state_closure(cx: Cx, ob: Ob) -> None:
                 witness=f"self.{name} = {show(value)[:120]}; _index maintains only {sorted(maintained)}",
                 detail=f"unmaintained:{name}",
             )
+    # sibling agreement for derived values that are not tables: what __init__ computes over ALL keys of a lookup
+    # table, _index must fold in for all the names of the record that enter that table
+    ixf = cx.model.functions.get(f"{CONV}._index")
+    if ixf is not None and ixf.self_name and len(ixf.params) > 1:
+        ixs = cx.summary(ixf, ob.id)
+        ime = ("param", ixf.self_name)
+        rec = ("param", ixf.params[1].name)
+        for name, (value, line) in derived.items():
+            if name in BASE or name in TABLES or name not in maintained:
+                continue
+            src_tables = {x[2] for x in subterms(value) if op(x) == "attr" and x[1] == me and x[2] in TABLES}
+            if not src_tables:
+                continue
+            for ev, _ in ixs.distinct_events("store"):
+                if ev.a != ("attr", ime, name) or not isinstance(ev.b, tuple):
+                    continue
+                read = {x[2] for x in subterms(ev.b) if op(x) == "attr" and x[1] == rec and x[2] in (CANON | LISTS)}
+                for tname in sorted(src_tables):
+                    keys = TABLES[tname][0]
+                    if read & keys and not keys <= read:
+                        ob.violate(
+                            ixf.qualname,
+                            where(ixf, ev.line),
+                            f"self.{name} is computed in __init__ over every key of {tname} ({sorted(keys)} of every record) but _index folds in only {sorted(read & keys)} of the record it indexes: after add_record / add_prefix the value no longer describes the table",
+                            witness=f"__init__: self.{name} = {show(value)[:80]}; _index: self.{name} = {show(ev.b)[:80]}",
+                            detail=f"partially-maintained:{name}",
+                        )
     for m, attr, ev, how in writers:
         if m.name in allowed_writers:
             # in-place maintenance is fine; REBINDING a lookup table after construction is not:
@@ -1179,12 +1259,32 @@ def dict_items(s: Summary | None, t) -> dict | None:
     return out
 
 
+def _cache_cleared_by_index(cx: Cx, method_name: str) -> bool:
+    """``<anything>.<method_name>.cache_clear()`` as a top-level statement of Converter._index (outside any test)."""
+    import ast as _ast
+
+    ix = cx.model.functions.get(f"{CONV}._index")
+    if ix is None:
+        return False
+    for st in ix.node.body:
+        if isinstance(st, _ast.Expr) and isinstance(st.value, _ast.Call) and isinstance(st.value.func, _ast.Attribute) and st.value.func.attr == "cache_clear":
+            tgt = st.value.func.value
+            if isinstance(tgt, _ast.Attribute) and tgt.attr == method_name:
+                return True
+    return False
+
+
 def cached_derivations(cx: Cx, ob: Ob, class_names=("Record", "Reference", "NamableReference", "NamedReference", "Converter", "ReferenceTuple")) -> None:
     """No memoised derived value on objects whose fields are mutated in place / copied with updates."""
     for ci in cx.model.classes.values():
         if ci.name not in class_names:
             continue
         for m in ci.methods.values():
+            if m.is_cached_property and ci.name == "Converter" and not m.is_property and _cache_cleared_by_index(cx, m.name):
+                # lru_cache on a method whose cache _index - run on every mutation path (pairing obligation) -
+                # empties unconditionally: no answer survives a change of the tables
+                ob.site(m.where, f"{ci.name}.{m.name} is memoised and _index clears the cache unconditionally")
+                continue
             if m.is_cached_property:
                 ob.violate(
                     m.qualname,
@@ -1905,6 +2005,14 @@ def no_fields_set_dependence(cx: Cx, ob: Ob) -> None:
                     bad = f"{callee_name(c)}(exclude_unset=True)"
                 if op(c) == "attr" and c[2] in ("model_fields_set", "__fields_set__", "__pydantic_fields_set__"):
                     bad = c[2]
+                    # handed on as the bookkeeping argument of model_construct next to ALL the values
+                    # (**self.model_dump() / **dict(self)): every value is copied, only pydantic's own
+                    # "was set explicitly" marks follow the original
+                    for k in subterms(t):
+                        if op(k) == "call" and callee_name(k) == "model_construct" and k[2] and any(y == c for y in subterms(k[2][0])) and not any(y == c for a_ in k[2][1:] for y in subterms(a_)):
+                            splat = [v for kk, v in k[3] if kk is None]
+                            if splat and all(op(v) == "call" and (callee_name(v) in ("model_dump", "dict") and not any(kk2 in ("exclude_unset", "exclude_defaults", "include", "exclude") for kk2, _ in v[3])) for v in splat):
+                                bad = None
                 if bad:
                     ob.violate(
                         fn.qualname,
